@@ -165,7 +165,9 @@ Definition existing_rot (off : Z) (sp : file_spec) (fixed : bytes) (f : fs) (flt
   let r2 := if sel_gz sel then filter_files off (fsfx sp) fixed rel flt (Some gz_sfx) else Some [] in
   let r3 := if sel_rcur sel then filter_files off (fsfx sp) fixed rel (IFEq cur_infix) (fsfx sp) else Some [] in
   let r4 := match sel_custom sel with
-            | Some c => filter_files off (fsfx sp) fixed rel (IFEq c) (fsfx sp)
+            | Some c => (* not a second time, if it is the rCURRENT file that is listed already *)
+                        if sel_rcur sel && beq c cur_infix then Some []
+                        else filter_files off (fsfx sp) fixed rel (IFEq c) (fsfx sp)
             | None => Some [] end in
   app_opt (app_opt (app_opt r1 r2) r3) r4.
 
